@@ -3,6 +3,16 @@ use crate::{
     object::{Error, FromString, Object, Type},
 };
 
+// verif hook: route the output of print through the capture buffer
+#[cfg(feature = "verif")]
+macro_rules! print {
+    ($($arg:tt)*) => { crate::verif::emit(format_args!($($arg)*)) };
+}
+#[cfg(feature = "verif")]
+macro_rules! println {
+    () => { crate::verif::emit(format_args!("\n")) };
+}
+
 #[repr(u8)]
 pub(crate) enum Builtin {
     Print,
